@@ -45,7 +45,7 @@ struct RcptState {
   int k_reports = 0;
   bool attempted_after_final = false;
 };
-struct MsgState { bool alrm_due[2] = {false, false};   /* deferred recipients waiting (none in flight) when an ALRM was sent */
+struct MsgState { bool retry_not_persisted[2] = {false, false}; bool alrm_due[2] = {false, false};   /* deferred recipients waiting (none in flight) when an ALRM was sent */
   long num = 0; std::string sender; std::vector<RcptState> rc; bool is_bounce = false; long committed_at = 0; int injector_uid = 0;
   bool gone = false;         // info unlinked
   bool bounced = false;      // a bounce notice for it has been queued
@@ -71,7 +71,7 @@ struct DaemonScenario : Scenario {
   std::vector<Delivery> inflight; int serial = 0;
   size_t tick_pos = std::string::npos, tick_end = 0; int tick_cnt = 0;
   bool catchall = false;         // control/virtualdomains also has a catch-all entry and an exception
-  int held_ticks = 0;
+  int held_ticks = 0, burned = 0;
   bool hupedit = false, config_b = false;   // C10: every HUP is preceded by an edit of locals/virtualdomains (far.example becomes local, virt2.example virtual) / back
   bool expect_leftovers = false; // failed or hung injections legitimately leave S2/S3 files that are collected after 36 hours
   bool mark_check_off = false;   // after an injected failure inside the daemon the report/mark alignment is unknown until it restarts
@@ -151,6 +151,10 @@ struct DaemonScenario : Scenario {
     w.counters["daemon_starts"]++;
   }
   int start_injector(World &w, const MsgSpec &m) {
+    if (cfg.geti("bucket", -1) >= 0) {   // message numbers are inode numbers: occupy free numbers until the next one is == bucket (mod split)
+      Kernel &k = w.k; int want = cfg.geti("bucket", 0) % SPLIT; k.mkdir_p("/burn", 0755, 0, 0);
+      for (int i = 0; i < 3 * SPLIT && k.alloc_ino() % SPLIT != want; i++) k.put_file("/burn/" + std::to_string(burned++), "", 0600, 0, 0);
+    }
     std::string env = "F" + m.sender + '\0'; for (auto &r : m.rcpts) env += "T" + r + '\0'; env += '\0';
     std::map<int, int> fds; fds[0] = QmailEnv::preloaded_pipe(w, m.body); fds[1] = QmailEnv::preloaded_pipe(w, env); fds[2] = QmailEnv::nullfd(w);
     int pid = w.spawn("/var/qmail/bin/qmail-queue", {"qmail-queue"}, fds, m.uid, GID_QMAIL, "/");
@@ -337,6 +341,7 @@ struct DaemonScenario : Scenario {
     if (m.pass_started[c] == 0 || now > m.pass_started[c]) {
       // a new pass for (message, channel) begins now
       if (!M("C15")) { }
+      else if (m.retry_not_persisted[c]) { }   // the utimes() that records the retry time failed (injected): the next incarnation cannot know it
       else if (m.had_defer[c] && m.earliest_next[c] && now < m.earliest_next[c] && !alarm_since[c] && m.term_open_pass[c])
         w.soft_violation("C15:retried-too-early:after-TERM-during-open-pass", "message " + std::to_string(m.num) + " chan " + std::to_string(c) + ": TERM arrived while its pass was still open (recipients not yet read), so the job was never closed and pqfinish did not persist the retry time; after the clean restart the deferred recipient is retried at " + std::to_string(now) + ", earlier than its back-off time " + std::to_string(m.earliest_next[c]) + "; history:" + history);
       else if (m.had_defer[c] && m.earliest_next[c] && now < m.earliest_next[c] && !alarm_since[c] && !restarted_since(m, c))
@@ -375,7 +380,8 @@ struct DaemonScenario : Scenario {
     if (st.op == VK_WRITE && (st.tag == TAG_LCMD || st.tag == TAG_RCMD) && st.ret > 0) drain_commands(w, st.tag == TAG_LCMD ? 0 : 1);
     if (st.injected && st.err && p.vpid == sendpid) { markfifo[0].clear(); markfifo[1].clear(); mark_check_off = true; }   // a mark may not get written: alignment is lost
     if (st.injected && st.err) { faults_seen++; w.counters["faults_injected"]++; history += " FAULT(" + opname(st.op) + " " + st.path + ")";
-      if (p.vpid == cleanpid) expect_leftovers = true; }   // a file the cleaner could not remove is a documented leftover: collected once it is 36 hours old
+      if (p.vpid == cleanpid) expect_leftovers = true;
+      if (st.op == VK_UTIMES) { int c = st.path.compare(0, 6, "local/") == 0 ? 0 : st.path.compare(0, 7, "remote/") == 0 ? 1 : -1; size_t sl = st.path.rfind('/'); if (c >= 0 && sl != std::string::npos) { MsgState *mm = find_msg(atol(st.path.c_str() + sl + 1)); if (mm) mm->retry_not_persisted[c] = true; } } }   // a file the cleaner could not remove is a documented leftover: collected once it is 36 hours old
     if (w.aborted) return;
     bool fsop = (st.op == VK_LINK || st.op == VK_UNLINK || st.op == VK_RENAME || st.op == VK_OPEN || st.op == VK_KILL);
     if (st.op == VK_LINK && st.ret == 0 && st.path2.compare(0, 5, "todo/") == 0) { accept(w, atol(st.path2.c_str() + 5), p.uid, std::find(own_injectors.begin(), own_injectors.end(), p.vpid) == own_injectors.end()); if (M("C01")) check_commit(w, atol(st.path2.c_str() + 5)); }
@@ -523,7 +529,7 @@ struct DaemonScenario : Scenario {
     }
     if (w.ex->bound[BK_CRASH] > 0 && crash_points_enabled(w, p)) { a.push_back({BK_CRASH, ALT_MACHINE_CRASH, 0}); if (p.vpid == sendpid) a.push_back({BK_CRASH, ALT_KILL, 0}); }
     if (w.ex->bound[BK_FAULT] > 0 && fault_points_enabled(w, p)) {
-      switch (r.op) { case VK_WRITE: a.push_back({BK_FAULT, ALT_FAIL, ENOSPC}); break; case VK_OPEN: a.push_back({BK_FAULT, ALT_FAIL, EIO}); break; case VK_UNLINK: a.push_back({BK_FAULT, ALT_FAIL, EIO}); break;
+      switch (r.op) { case VK_WRITE: a.push_back({BK_FAULT, ALT_FAIL, ENOSPC}); if (r.a[1] > 1) a.push_back({BK_FAULT, ALT_SHORT, (int) (r.a[1] / 2)}); /* a disk filling up mid-write: fewer bytes taken, no error */ break; case VK_OPEN: a.push_back({BK_FAULT, ALT_FAIL, EIO}); break; case VK_UNLINK: a.push_back({BK_FAULT, ALT_FAIL, EIO}); break;
         case VK_LINK: a.push_back({BK_FAULT, ALT_FAIL, EIO}); break; case VK_FSYNC: a.push_back({BK_FAULT, ALT_FAIL, EIO}); break; case VK_UTIMES: a.push_back({BK_FAULT, ALT_FAIL, EIO}); break; default: break; }
     }
   }
@@ -597,7 +603,7 @@ struct DaemonScenario : Scenario {
       else { start_injector(w, tosend.front()); tosend.erase(tosend.begin()); }
       return true;
     }
-    if (M("C16") && injectors.empty() && !term_sent) {
+    if (M("C16") && injectors.empty() && !term_sent && faults_seen == 0) {   // (a failed open of the trigger or of todo/ legitimately delays the pick-up to the rescan)
       // every committed message must have been noticed by now: the daemon is blocked and the clock has not moved
       // (a daemon that was told to exit deliberately stops looking at todo/; the next incarnation scans at start-up)
       for (auto &n : w.k.listdir("/var/qmail/queue/todo")) { w.violation("C16:lost-wakeup", "all processes are blocked, the injector of message " + n + " has finished, yet todo/" + n + " has not been picked up (the daemon will only notice it at the 25-minute rescan)"); return false; }
@@ -663,7 +669,7 @@ struct DaemonScenario : Scenario {
     if (dl < 0) { w.violation("C16:blocked-forever", "queue not empty but qmail-send is blocked without any timeout"); return false; }
     // after a crash S2/S3 leftovers are legitimate; they are collected only once they are 36 hours old
     bool leftovers_only = (machine_crashed || daemon_killed || expect_leftovers) && only_leftovers(w);
-    if (++ticks > (leftovers_only ? max_ticks + 140 : max_ticks)) { if (M("C15") || M("C03")) w.violation("C03:queue-not-drained", "after " + std::to_string(max_ticks) + " wake-ups with every further attempt answered success the queue is still not empty; history:" + history); return false; }
+    if (++ticks > (leftovers_only ? max_ticks + 140 : max_ticks)) { if ((M("C15") || M("C03")) && cfg.get("verdicts", "KZDX")[0] == 'K') w.violation("C03:queue-not-drained", "after " + std::to_string(max_ticks) + " wake-ups with every further attempt answered success the queue is still not empty; history:" + history); return false; }
     if (M("C16")) check_sleep_bound(w, dl);
     w.advance_clock(dl); w.counters["ticks"]++;
     if (tick_pos != std::string::npos && history.size() == tick_end) { history.resize(tick_pos); tick_cnt++; } else { tick_cnt = 1; tick_pos = history.size(); }
